@@ -163,4 +163,42 @@ theorem fSub_zero_right (f : FltTy) (x : FVal) (h : x.wf f) :
     · have := rne_of_wf f s m e hm h
       simp [fSub, fNeg, fAdd, hm, this]
 
+/-! ### Proof-extension round: casts back to the rep, `0 - x` -/
+
+theorem wrap_id (t : IntTy) (ht : t ∈ IntTy.all) (x : Int) (hx : t.inRange x) : t.wrap x = x := by
+  rcases intTy_cases t ht with rfl|rfl|rfl|rfl|rfl|rfl|rfl|rfl <;>
+    (simp only [IntTy.inRange, IntTy.lo, IntTy.hi, i8, u8, i16, u16, i32, u32, i64, u64] at hx
+     simp only [IntTy.wrap, i8, u8, i16, u16, i32, u32, i64, u64]
+     simp at hx ⊢
+     try split
+     all_goals omega)
+
+/-- `0 - x` in the promoted type when that type is signed: defined exactly when `x` is not its
+minimum, and then it is `-x`. -/
+theorem subIn_zero_left (t : IntTy) (ht : t ∈ IntTy.all) (x : Int) (hx : t.inRange x)
+    (hs : t.promote.signed = true) (hm : x ≠ t.promote.lo) :
+    subIn t.promote 0 x = ⟨.ok (-x), false⟩ := by
+  rcases intTy_cases t ht with rfl|rfl|rfl|rfl|rfl|rfl|rfl|rfl <;>
+    (simp only [IntTy.inRange, IntTy.lo, IntTy.hi, IntTy.promote, i8, u8, i16, u16, i32, u32, i64, u64] at hx hm hs
+     simp only [subIn, IntTy.promote, IntTy.inRange, IntTy.lo, IntTy.hi, IntTy.wrap,
+       i8, u8, i16, u16, i32, u32, i64, u64, Int.zero_sub]
+     simp at hx hm hs ⊢
+     try omega)
+
+theorem fNeg_wf (f : FltTy) (x : FVal) (h : x.wf f) : (fNeg x).wf f := by
+  cases x with
+  | nan => trivial
+  | inf s => trivial
+  | fin s m e => simpa [fNeg, FVal.wf] using h
+
+/-- `(+0.0) - x`: `-x` bit for bit, except that `(+0.0) - (+0.0) = +0.0`. -/
+theorem fSub_zero_left (f : FltTy) (x : FVal) (h : x.wf f) :
+    fSub f (.fin false 0 0) x = if x = .fin false 0 0 then .fin false 0 0 else fNeg x := by
+  unfold fSub
+  rw [fAdd_zero_left f (fNeg x) (fNeg_wf f x h)]
+  cases x with
+  | nan => rfl
+  | inf s => rfl
+  | fin s m e => cases s <;> simp [fNeg]
+
 end Au.Zero
